@@ -28,7 +28,8 @@ MALFORMED = {
     "rest-not-last-map": ["#{ .., \"k\": 1 }", "#{ \"a\": 1, .., \"k\": 1 }", "#{ \"a\": 1, .., }", "#{ .., }"],
     "tuple-index-mismatch": ["(1: 5)", "(0: 1, 0: 2)", "Some(1: 2)", "(5, 0: 1)", "E::T(0: 1, 2: 3)", "(*1: 5)",
                              "(0: 1, 1.len(): 2, 3: 4)"],
-    "tuple-named-index": ["(x: 1)", "Some(*f: 2)", "(0: 1, name: 2)"],
+    "tuple-named-index": ["(x: 1)", "Some(*f: 2)", "(0: 1, name: 2)", "Some(*inner.0: 7)", "(0: 1, *second.1: 3)", "(*x.0.len(): 1)", "(**a.0: 1)",
+                          "E::T(*f.0: 1, 1: 2)", "(x.0: 1)", "(0: 1, *a.b.1: 2)", "(*x[0].0: 1)", "Ok(*r.0.await: 1)"],
     "closure-arity": ["|| true", "|a, b| a > b", "move || 1", "|a, b, c| true"],
     "eq-other": ["= 5", "=> 5", "= = 5", "=! 5", "= \"x\"", "=- 1"],
     "operator-without-operand": [">", "<=", "==", "!=", "=~", "<", "!"],
